@@ -112,7 +112,7 @@ where
                 drop(write_tx);
                 writer_handle.join().unwrap()
             }
-            State::Done => panic!("invalid state"),
+            State::Done => Err(io::Error::other("writer is finished")),
         }
     }
 
@@ -126,7 +126,7 @@ where
 
     fn send(&mut self) -> io::Result<()> {
         let State::Running { write_tx, .. } = &self.state else {
-            panic!("invalid state");
+            return Err(io::Error::other("writer is finished"));
         };
 
         let (buffered_tx, buffered_rx) = crossbeam_channel::bounded(1);
